@@ -69,6 +69,10 @@ func TestVerifC17Hijack(t *testing.T) {
 			vfViol(key("response-not-flushed-before-hijack"), fmt.Sprintf("server had written %d bytes when the hijack handler started, but %d bytes of response precede the handler's first byte", o.hijWritten, o.cliBefore), c)
 			return
 		}
+		if o.hijErr != "" {
+			vfViol(key("hijack-read-error"), "the hijack handler's read failed with "+o.hijErr+" (it must see the client's bytes and then EOF)", c)
+			return
+		}
 		if string(o.hijRead) != want {
 			vfViol(key("hijack-stream"), fmt.Sprintf("hijack handler read %q, the client sent %q after the hijacking request", o.hijRead, want), c)
 			return
